@@ -27,7 +27,40 @@ def sh(cmd, cwd=None, env=None, timeout=1800):
     return proc.returncode, proc.stdout
 
 
+def table():
+    """markdown catch table from seeded/*/meta.json"""
+    rows = []
+    base = os.path.join(VERIF, "seeded")
+    for name in sorted(os.listdir(base)):
+        path = os.path.join(base, name, "meta.json")
+        if not os.path.exists(path):
+            continue
+        meta = json.load(open(path))
+        ver = meta.get("verified_by_us", {})
+        checks = ver.get("checks", {})
+        caught = ", ".join("%s %s" % (p, "caught" if c["caught"] else "MISSED")
+                           for p, c in sorted(checks.items()))
+        first = ""
+        for c in checks.values():
+            for ln in c["lines"]:
+                if ln.startswith("  - "):
+                    first = ln[4:].split(":")[0]
+                    break
+            if first:
+                break
+        rows.append("| %s | %s | %s | %s | %s |" % (
+            name, meta.get("summary", "")[:110].replace("|", "/"),
+            meta.get("needs_to_manifest", "")[:90].replace("|", "/"),
+            caught, first + ("; " + meta["strengthened"]
+                             if meta.get("strengthened") else "")))
+    print("| seeded change | what it does | needs | quick check | first "
+          "reported key / note |\n|---|---|---|---|---|")
+    print("\n".join(rows))
+
+
 def main():
+    if sys.argv[1] == "--table":
+        return table()
     src = os.path.abspath(sys.argv[1])
     tier = "quick"
     props = None
